@@ -65,7 +65,8 @@ type memRig struct {
 	proposalShare float64
 	// certOverride, when set, certifies the next candidate instead of certify (forged certificates)
 	certOverride func(s *common.Snapshot) *crypto.CosiSignature
-	forceK       int // certify: exactly this many signers (0 = by the threshold)
+	quietChain   *crypto.Hash // leaders(): a member whose chain gets no new snapshots for now
+	forceK       int          // certify: exactly this many signers (0 = by the threshold)
 	seq          int
 }
 
@@ -322,6 +323,9 @@ func (m *memRig) leaders() []*memIdent {
 	var out []*memIdent
 	epoch := uint64(m.c.Epoch.UnixNano())
 	for _, id := range m.accepted() {
+		if m.quietChain != nil && id.id == *m.quietChain {
+			continue // this member leads nothing for now (a snapshot of its chain is being held back somewhere)
+		}
 		if id.since == epoch || id.since+uint64(config.KernelNodeAcceptPeriodMinimum)+uint64(time.Minute) < m.now() {
 			out = append(out, id)
 		}
